@@ -486,10 +486,18 @@ func (w *twkbWriter) writeTypeAndPrecision(kind twkbGeometryType) {
 
 func (w *twkbWriter) writeIsEmptyHeader() {
 	w.isEmpty = true
-	// Because this is an empty object, we only need to write the "is empty" bit.
-	// In particular, we do not write any extended info, size, bbox, or ids,
-	// even if those were available or requested.
-	w.writeMetadataHeader(twkbIsEmpty)
+	// Because this is an empty object, we do not write any size, bbox, or
+	// ids, even if those were available or requested. The extended precision
+	// byte is kept, because it is the only place that records whether the
+	// geometry has Z and M values.
+	metaheader := twkbIsEmpty
+	if w.hasExt {
+		metaheader |= twkbHasExtPrec
+	}
+	w.writeMetadataHeader(metaheader)
+	if w.hasExt {
+		w.writeExtendedPrecision()
+	}
 }
 
 func (w *twkbWriter) writeInitialHeaders() {
